@@ -159,6 +159,162 @@ type Pather struct {
 	// DistinctCalls gives repeated calls that render identically (same callee and
 	// arguments, e.g. successive reads from a cursor) an ordinal suffix @2, @3, ….
 	DistinctCalls bool
+	// Bind substitutes SSA values before rendering: a loop variable by one of the
+	// constants it takes, a merge (phi) by the alternative of one case. Rules that
+	// unroll a constant-trip-count loop or split on a finite case set it (and call
+	// ResetMemo) per iteration/case; it is nil otherwise.
+	Bind map[ssa.Value]ssa.Value
+}
+
+// Deref follows Bind.
+func (p *Pather) Deref(v ssa.Value) ssa.Value {
+	for i := 0; i < 8 && p.Bind != nil; i++ {
+		b, ok := p.Bind[v]
+		if !ok {
+			break
+		}
+		v = b
+	}
+	return v
+}
+
+// Const folds an integer expression to a constant: literal constants, bound values,
+// conversions and + - * << >> & | of foldable operands.
+func (p *Pather) Const(v ssa.Value) (int64, bool) {
+	return p.constD(v, 0)
+}
+
+func (p *Pather) constD(v ssa.Value, d int) (int64, bool) {
+	v = p.Deref(v)
+	if k, ok := ConstInt(v); ok {
+		return k, true
+	}
+	if d > 12 {
+		return 0, false
+	}
+	switch x := v.(type) {
+	case *ssa.Convert:
+		return p.constD(x.X, d+1)
+	case *ssa.ChangeType:
+		return p.constD(x.X, d+1)
+	case *ssa.UnOp:
+		// load of a literal's element: []T{…, c, …}[k]
+		if ia, ok := x.X.(*ssa.IndexAddr); ok && x.Op == token.MUL && p.Bind != nil {
+			if k, ok := p.constD(ia.Index, d+1); ok {
+				if e, ok := p.litElem(ia.X, k, 0); ok {
+					return p.constD(e, d+1)
+				}
+			}
+		}
+	case *ssa.BinOp:
+		a, okA := p.constD(x.X, d+1)
+		b, okB := p.constD(x.Y, d+1)
+		if !okA || !okB {
+			return 0, false
+		}
+		switch x.Op {
+		case token.ADD:
+			return a + b, true
+		case token.SUB:
+			return a - b, true
+		case token.MUL:
+			return a * b, true
+		case token.SHL:
+			if b >= 0 && b < 63 {
+				return a << uint(b), true
+			}
+		case token.SHR:
+			if b >= 0 && b < 63 && a >= 0 {
+				return a >> uint(b), true
+			}
+		case token.AND:
+			return a & b, true
+		case token.OR:
+			return a | b, true
+		}
+	}
+	return 0, false
+}
+
+// litElem returns the value stored at position k of a slice literal (through
+// constant-offset re-slicing and Bind).
+func (p *Pather) litElem(base ssa.Value, k int64, d int) (ssa.Value, bool) {
+	base = p.Deref(base)
+	if d > 6 || k < 0 {
+		return nil, false
+	}
+	if x, ok := base.(*ssa.Slice); ok {
+		lo := int64(0)
+		if x.Low != nil {
+			l, ok := p.Const(x.Low)
+			if !ok {
+				return nil, false
+			}
+			lo = l
+		}
+		if a, ok := x.X.(*ssa.Alloc); ok {
+			if elems, isLit := ArrayLitElems(a); isLit && int(lo+k) < len(elems) && elems[lo+k] != nil {
+				return elems[lo+k], true
+			}
+			return nil, false
+		}
+		return p.litElem(x.X, lo+k, d+1)
+	}
+	return nil, false
+}
+
+// elemOf names element k of a slice/array value whose contents are known: a
+// literal ([]T{a, b, c}[1] is b) or a constant-offset view of another value
+// (x[2:][1] and x[:6][1] are x[3] and x[1]).
+func (p *Pather) elemOf(base ssa.Value, k int64, d int) (string, bool) {
+	base = p.Deref(base)
+	if d > 6 || k < 0 {
+		return "", false
+	}
+	switch x := base.(type) {
+	case *ssa.Slice:
+		lo := int64(0)
+		if x.Low != nil {
+			l, ok := p.Const(x.Low)
+			if !ok {
+				return "", false
+			}
+			lo = l
+		}
+		if x.High != nil {
+			if h, ok := p.Const(x.High); ok && lo+k >= h {
+				return "", false
+			}
+		}
+		if a, ok := x.X.(*ssa.Alloc); ok {
+			if elems, isLit := ArrayLitElems(a); isLit {
+				if int(lo+k) >= len(elems) {
+					return "", false
+				}
+				if e := elems[lo+k]; e != nil {
+					return p.Path(e), true
+				}
+				return "0", true
+			}
+		}
+		if s, ok := p.elemOf(x.X, lo+k, d+1); ok {
+			return s, true
+		}
+		if x.Low == nil || lo == 0 {
+			if _, isPhi := p.Deref(x.X).(*ssa.Phi); !isPhi {
+				return fmt.Sprintf("%s[%d]", p.addrBase(x.X), k), true
+			}
+		}
+	case *ssa.UnOp:
+		if x.Op == token.MUL {
+			if a, ok := x.X.(*ssa.Alloc); ok {
+				if sv, ok := p.single[a]; ok {
+					return p.elemOf(sv, k, d+1)
+				}
+			}
+		}
+	}
+	return "", false
 }
 
 var paramTok = regexp.MustCompile(`(^|[^A-Za-z0-9_#])p(\d+)\b`)
@@ -329,6 +485,9 @@ func (p *Pather) Path(v ssa.Value) string {
 	if v == nil {
 		return "<nil>"
 	}
+	if p.Bind != nil {
+		v = p.Deref(v)
+	}
 	if s, ok := p.memo[v]; ok {
 		return s
 	}
@@ -403,6 +562,11 @@ func (p *Pather) path(v ssa.Value) string {
 			return x.Op.String() + p.Path(x.X)
 		}
 	case *ssa.BinOp:
+		if p.Bind != nil {
+			if k, ok := p.Const(x); ok {
+				return fmt.Sprint(k)
+			}
+		}
 		return "(" + p.Path(x.X) + x.Op.String() + p.Path(x.Y) + ")"
 	case *ssa.Convert:
 		if p.KeepConv {
@@ -446,6 +610,13 @@ func (p *Pather) path(v ssa.Value) string {
 		}
 		return base + "[" + lo + ":" + hi + "]"
 	case *ssa.IndexAddr:
+		if p.Bind != nil {
+			if k, ok := p.Const(x.Index); ok {
+				if s, ok := p.elemOf(x.X, k, 0); ok {
+					return s
+				}
+			}
+		}
 		base := p.addrBase(x.X)
 		if i := trailingOpenSlice(base); i >= 0 {
 			if k, okK := ConstInt(x.Index); okK {
